@@ -15,6 +15,7 @@ import subprocess
 import sys
 import time
 import traceback
+os.umask(0o022)        # the native helper inherits it: extraction must give archived permission bits regardless
 
 sys.path.insert(0, os.path.dirname(os.path.abspath(__file__)))
 import z3  # noqa: E402
